@@ -28,6 +28,7 @@ def dispatch (op : String) (j : Lean.Json) : Lean.Json :=
   | "error_case" => Sebuf.Driver.opErrorCase j
   | "build_defects" => Sebuf.Driver.opBuildDefects j
   | "spec_enc" => Sebuf.Driver.opSpecEnc j
+  | "resp_codec" => Sebuf.Driver.opRespCodec j
   | "oa_wf" => Sebuf.Driver.opOaWf j
   | "schema_valid" => Sebuf.Driver.opSchemaValid j
   | "oa_components" => Sebuf.Driver.opOaComponents j
